@@ -190,6 +190,16 @@ pub fn run(ctx: &Ctx, rep: &mut Report) {
                 }
             }
         }
+        // (b'') a per-trait argument next to a shared bound: a list that holds a single trait keeps both
+        if n >= 2 && shared.is_empty() && tp.iter().all(|p| !p.1.contains('(')) && s.item.contains("<T") {
+            let merged: Vec<String> = (0..n).map(|i| if i == 0 { format!("{}(bound(T: Mk, ..))", tp[i].1) } else { tp[i].1.clone() }).collect();
+            let shared_b = "bound(T: Mq, ..)";
+            extra_seeds.push(Seed { origin: format!("{}+per-trait-and-shared-bound", s.origin), attr: format!("{}, {}", merged.join(", "), shared_b), traits: s.traits.clone(), item: s.item.clone(), entry: Entry::Attr, is_impl: false });
+            let a1 = format!("{}, {}", merged[0], shared_b);
+            let a2 = format!("{}, {}", merged[1..].join(", "), shared_b);
+            extra_jobs.push((extra_seeds.len() - 1, Job { seed: 0, kind: "split-per-trait-and-shared-bound", entry: Entry::Attr, attr: a1.clone(), item: format!("#[derive_ex({a2})] {}", s.item), traits: s.traits.clone(), map: id.clone() }));
+            extra_jobs.push((extra_seeds.len() - 1, Job { seed: 0, kind: "split-per-trait-and-shared-bound", entry: Entry::Derive, attr: String::new(), item: format!("#[derive_ex({a1})] #[derive_ex({a2})] {}", s.item), traits: s.traits.clone(), map: id.clone() }));
+        }
         // (c) sub-lists containing t
         if n >= 2 {
             let helpers = helper_names(&s.item);
@@ -286,6 +296,38 @@ pub fn run(ctx: &Ctx, rep: &mut Report) {
                 } else if rep.samples.len() < 5 && j.kind != "entry" {
                     rep.sample(json!({"kind": j.kind, "entry": j.entry.name(), "attr": j.attr, "item": j.item, "baseline": format!("#[derive_ex({})] {}", s.attr, s.item)}));
                 }
+            }
+        }
+    }
+    // (d) the attribute entry must leave behind exactly what the derive entry was given, minus the attributes the
+    //     derived traits own (for the derive entry those are inert helper attributes): a helper attribute left in
+    //     place makes the same definition fail through one entry point and work through the other
+    let replay_item: Option<(String, String)> = ctx.replay.as_ref().and_then(|p| std::fs::read_to_string(p).ok()).and_then(|t| serde_json::from_str::<serde_json::Value>(&t).ok()).filter(|v| v["case"]["kind"] == "entry-item").map(|v| (v["case"]["attr"].as_str().unwrap_or("").to_string(), v["case"]["item"].as_str().unwrap_or("").to_string()));
+    if ctx.replay.is_none() || replay_item.is_some() {
+        let outs = par_map(&seeds, threads(), |_, s| {
+            if let Some((a, i)) = &replay_item {
+                if &s.attr != a || &s.item != i {
+                    return None;
+                }
+            }
+            let want = crate::c14::strip_owned_text(&s.item, &s.traits).ok()?;
+            let ts = crate::expand::expand_attr(&s.attr, &s.item).ok()?;
+            let items = crate::expand::parse_output(ts, true).ok()?;
+            match items.first() {
+                Some(crate::expand::OutItem::Item(i)) => Some((want, crate::expand::flat_str(quote::ToTokens::to_token_stream(i)))),
+                _ => None,
+            }
+        });
+        for (s, o) in seeds.iter().zip(outs.iter()) {
+            let Some((want, got)) = o else { continue };
+            rep.stats.terminals += 1;
+            rep.case(&format!("entry-item attr #[derive_ex({})] {}", s.attr, s.item), true);
+            rep.outcome(if want == got { "entry-item:same" } else { "entry-item:differs" });
+            if want != got {
+                let mut atoms = BTreeSet::new();
+                atoms.insert("kind=entry-item".to_string());
+                atoms.insert("group=entry-item".to_string());
+                rep.violation(Violation { symptom: "attribute-entry-leaves-a-different-item".into(), atoms, what: format!("#[derive_ex({})] {}: the attribute macro re-emits `{}`, the derive macro's view of the item is `{}`", s.attr, s.item.chars().take(100).collect::<String>(), got.chars().take(160).collect::<String>(), want.chars().take(160).collect::<String>()), detail: json!({"kind": "entry-item", "entry": "attr", "attr": s.attr, "item": s.item, "expected_item": want, "observed_item": got}), standalone: None });
             }
         }
     }
